@@ -427,10 +427,21 @@ func gen(r *rand.Rand, tier string, i int) input {
 			perm := r.Perm(nScopes)
 			feat := map[string]bool{}
 			var reqs []reqIn
+			haveSnap := false
 			for _, sc := range perm[:k] {
+				saved := sh[sc]
+				saved.terms = append([]uint64(nil), sh[sc].terms...)
 				q := sh[sc].genReq(r, sc, feat, mode == 0)
+				if k > 1 && q.K == "save" && q.Sn != nil {
+					if haveSnap { // snapshot saves are serialised DB-wide (snapshotLifecycleMu)
+						sh[sc] = saved
+						continue
+					}
+					haveSnap = true
+				}
 				if k > 1 && mode == 0 && q.K == "save" && isRiskyInGroup(q) {
 					// a staging error of one scope fails the whole batch; keep those in single-request groups
+					sh[sc] = saved
 					q = reqIn{S: sc, K: "mark", X: sh[sc].applied}
 				}
 				reqs = append(reqs, q)
